@@ -54,6 +54,17 @@ def body_walk(func: FuncNode) -> Iterator[ast.AST]:
         yield from walk_no_nested(st, enter_root=False)
 
 
+def _canonicalise(tree: ast.AST) -> None:
+    """Normal form for behaviour-preserving spellings, applied to every module before any rule sees it, so that both
+    spellings give the rules the same tree:  `if not C: A else: B`  ->  `if C: B else: A`  (only for a real else branch,
+    never for an elif chain). Line numbers of the moved statements are kept (they are for humans)."""
+    for n in ast.walk(tree):
+        if isinstance(n, ast.If) and n.orelse and not (len(n.orelse) == 1 and isinstance(n.orelse[0], ast.If)) \
+                and isinstance(n.test, ast.UnaryOp) and isinstance(n.test.op, ast.Not):
+            n.test = n.test.operand
+            n.body, n.orelse = n.orelse, n.body
+
+
 class Module:
     def __init__(self, name: str, rel: str, text: str):
         self.name = name
@@ -64,6 +75,7 @@ class Module:
             self.tree = ast.parse(text, filename=rel)
         except SyntaxError as e:  # pragma: no cover - a tree that does not compile is not analysable
             raise AnalysisError(f"{rel}: does not parse: {e}")
+        _canonicalise(self.tree)
         self.defs: Dict[str, ast.AST] = {}
         self.imports: Dict[str, Tuple[str, Optional[str]]] = {}
         self.assigns: Dict[str, List[ast.stmt]] = {}
